@@ -1,6 +1,6 @@
 //! C15 — reported error locations point into the form that failed.
 use crate::ast::*;
-use crate::faults::{fault_form_with, prelude, CONTEXTS, KINDS};
+use crate::faults::{fault_form_with, prelude, CONTEXTS_C08, KINDS};
 use crate::gen::{Gen, GenCfg};
 use crate::runner::{Chooser, Ctx, Report};
 use crate::sut::{self, Outcome, Session};
@@ -115,11 +115,67 @@ pub fn case(ch: &mut Chooser, kind: &'static str, context: &'static str, derived
         let mut g = Gen::new(ch, cfg);
         g.gen_program()
     };
-    forms.extend(valid);
     let ff = fault_form_with(ch, kind, context, derived);
+    // a definition the fault needs (context "deferred": the faulting operation sits in a procedure defined by an
+    // earlier form) goes somewhere among the valid forms
+    let pre_at = ch.below(valid.len() + 1);
+    for (i, f) in valid.iter().enumerate() {
+        if i == pre_at {
+            if let Some(p) = &ff.pre {
+                forms.push(p.clone());
+            }
+        }
+        forms.push(f.clone());
+    }
+    if pre_at >= valid.len() {
+        if let Some(p) = &ff.pre {
+            forms.push(p.clone());
+        }
+    }
     let fault_index = forms.len();
     forms.push(ff.form);
     forms.push(Form::Expr(Expr::Quote(Datum::Sym("after".into()))));
+    judge_program(ch, forms, fault_index, kind, context, derived)
+}
+
+/// the same derived form written twice: the first occurrence succeeds, then the state changes and the second one fails;
+/// the error must be located in the second occurrence
+pub fn repeated_case(ch: &mut Chooser) -> Report {
+    let mut forms = prelude();
+    let mut cfg = GenCfg::core(2);
+    cfg.max_forms = 3;
+    let valid = {
+        let mut g = Gen::new(ch, cfg);
+        g.gen_program()
+    };
+    forms.extend(valid);
+    forms.push(Form::Define(Def { name: "idx".into(), value: Expr::Int(0), sugar: false }));
+    let vr = || app("vector-ref", vec![var("wv"), var("idx")]);
+    let small = || app("<", vec![var("idx"), Expr::Int(1)]);
+    let ok = || Expr::Quote(Datum::Sym("ok".into()));
+    let (kind, f): (&'static str, Expr) = match ch.below(7) {
+        0 => ("vector-index", Expr::Let(vec![("q".into(), var("idx"))], body1(app("vector-ref", vec![var("wv"), var("q")])))),
+        1 => ("vector-index", Expr::When(Box::new(Expr::Bool(true)), vec![Expr::Int(0), vr()])),
+        2 => ("unbound-read", Expr::Cond(vec![Clause::Then(small(), vec![ok()])], Some(vec![Expr::Marked(Box::new(var("nowhere-bound")))]))),
+        3 => ("vector-index", Expr::Begin(vec![Expr::Int(0), vr()])),
+        4 => ("wrong-type", Expr::Case(Box::new(var("idx")), vec![(vec![Datum::Int(0)], CaseBody::Exprs(vec![ok()]))], Some(CaseBody::Exprs(vec![app("car", vec![var("idx")])])))),
+        5 => ("unbound-read", Expr::And(vec![Expr::Bool(true), Expr::Or(vec![small(), Expr::Marked(Box::new(var("nowhere-bound")))])])),
+        _ => ("vector-index", Expr::Unless(Box::new(Expr::Bool(false)), vec![app("list", vec![vr()])])),
+    };
+    forms.push(Form::Expr(f.clone()));
+    for _ in 0..ch.below(3) {
+        forms.push(Form::Expr(Expr::Quote(Datum::Sym("between".into()))));
+    }
+    forms.push(Form::Expr(Expr::Set("idx".into(), Box::new(Expr::Int(7)))));
+    let fault_index = forms.len();
+    forms.push(Form::Expr(f));
+    forms.push(Form::Expr(Expr::Quote(Datum::Sym("after".into()))));
+    let mut rep = judge_program(ch, forms, fault_index, kind, "direct", true);
+    rep.label("same-form-written-twice");
+    rep
+}
+
+fn judge_program(ch: &mut Chooser, forms: Vec<Form>, fault_index: usize, kind: &'static str, context: &'static str, derived: bool) -> Report {
     let laid = lay_out_program(ch, &forms, fault_index);
     let mut rep = Report::new(laid.text.clone());
     rep.label(format!("kind:{}", kind));
@@ -134,6 +190,12 @@ pub fn case(ch: &mut Chooser, kind: &'static str, context: &'static str, derived
             rep.skipped = Some("a-form-before-the-fault-fails-in-the-reference-evaluator".into());
             return rep;
         }
+    }
+    if context == "deferred" && matches!(kind, "unbound-read" | "unbound-set" | "non-procedure") {
+        // an error that carries the location of the offending identifier / operator points into the earlier definition,
+        // while the form whose evaluation failed is the later call: the two clauses of the property name different forms
+        rep.skipped = Some("deferred-fault-with-a-location-of-its-own".into());
+        return rep;
     }
     let o = eval_whole(&laid.text);
     rep.note = format!("{} ; failing form extent {:?}-{:?}, offending token {:?}", o.show(), fe.start, fe.end, laid.marked.as_ref().map(|m| (m.start, m.end)));
@@ -278,11 +340,14 @@ pub fn run(ctx: &Ctx) {
          whole. Oracle: the error carries a location, inside the failing form's extent, and for unbound-variable / \
          non-procedure faults inside the offending token's extent; plus stray ')' / unterminated list: a located syntax \
          error points at or before the offending token. Half of the cases avoid derived forms and library contexts by \
-         construction. Non-trivial = the failing form is not on line 1 and spans >= 2 lines.",
+         construction. Context `deferred` (the fault sits in a procedure defined by an earlier form, the failing form is the \
+         later call) is judged for the fault kinds whose error has no location of its own; a derived form written twice \
+         (first occurrence succeeds, the state changes, the second fails) must be located in the second occurrence. Non-trivial = the failing form is not on line 1 and spans >= 2 lines.",
     );
-    let per = ctx.tier.pick(40, 300);
+    let per = ctx.tier.pick(100, 400);
+    ctx.random("same-form-written-twice", ctx.tier.pick(600, 4_000), 300, repeated_case);
     for kind in KINDS.iter() {
-        for context in CONTEXTS.iter() {
+        for context in CONTEXTS_C08.iter() {
             for derived in [false, true] {
                 if !derived && *context == "library" {
                     continue;
@@ -292,5 +357,5 @@ pub fn run(ctx: &Ctx) {
             }
         }
     }
-    ctx.random("syntax-faults", ctx.tier.pick(600, 6000), 300, syntax_case);
+    ctx.random("syntax-faults", ctx.tier.pick(2_000, 10_000), 300, syntax_case);
 }
